@@ -33,6 +33,10 @@ REQUIRED_ANCHORS = ('Spectrum._getPSD', 'Spectrum._setSides', 'Spectrum._setNFFT
 
 DATA = {}
 CPLX = ('C', 'Az')          # names of the complex-typed records
+
+
+def _is_cplx(name):
+    return name.rstrip('+') in CPLX          # 'X+' = record X after an in-place edit of its first sample
 _TR = set()
 FOURIER = ('Periodogram', 'pcorrelogram')
 INIT = {
@@ -46,7 +50,7 @@ INIT = {
 
 
 def alphabet(cls):
-    ops = [('data', 'A'), ('data', 'B'), ('data', 'C'), ('data', 'Az'),
+    ops = [('data', 'A'), ('data', 'B'), ('data', 'C'), ('data', 'Az'), ('data', 'inplace'),
            ('NFFT', 40), ('NFFT', 41), ('NFFT', 'nextpow2'), ('NFFT', 'same'), ('NFFT', 'none'), ('data', 'Alist'),
            ('sampling', 2.5), ('sampling', 'same'),
            ('scale_by_freq', True), ('scale_by_freq', False),
@@ -202,10 +206,10 @@ def run_case(c, d):
 
     def observe(what):
         nonlocal ncalls, sides_log, changed
-        feats = dict(feats0, datatype='complex' if st['data'] in CPLX else 'real', nfft_odd=bool(st['NFFT'] % 2),
+        feats = dict(feats0, datatype='complex' if _is_cplx(st['data']) else 'real', nfft_odd=bool(st['NFFT'] % 2),
                      stale_after='+'.join(sorted(set(changed))) or 'nothing', read=what)
         target = what.split(':', 1)[1] if what.startswith('converted:') else None
-        if target == 'onesided' and st['data'] in CPLX:
+        if target == 'onesided' and _is_cplx(st['data']):
             target = None                       # forbidden for complex data
         conv = None
         fr_first = None
@@ -304,7 +308,17 @@ def run_case(c, d):
         before = abstract(live, cls)
         try:
             if kind == 'data':
-                if val == 'Alist':
+                if val == 'inplace':
+                    # the caller takes the record from the object, edits it in place and assigns it back
+                    rec = live.data
+                    rec[0] = rec[0] + 1.0
+                    live.data = rec
+                    val = st['data'] + '+'
+                    if val not in DATA:
+                        nd = np.array(DATA[st['data']], copy=True)
+                        nd[0] = nd[0] + 1.0
+                        DATA[val] = nd
+                elif val == 'Alist':
                     live.data = [float(v) for v in DATA['A']]        # a plain list of the same samples as 'A'
                     val = 'A'
                 else:
@@ -362,7 +376,7 @@ def run_case(c, d):
                 st['ma_order'] = val
             elif kind == 'sides':
                 target = live.sides if val == 'same' else val
-                if target == 'onesided' and st['data'] in CPLX:
+                if target == 'onesided' and _is_cplx(st['data']):
                     c.discard('op:onesided-for-complex-data-is-forbidden')
                     continue
                 live.sides = target
@@ -396,9 +410,9 @@ def run_case(c, d):
             except Exception:
                 c.discard('op-out-of-domain:%s' % kind)
                 return
-            fx = dict(feats0, op=kind, datatype='complex' if st['data'] in CPLX else 'real')
+            fx = dict(feats0, op=kind, datatype='complex' if _is_cplx(st['data']) else 'real')
             chx = None
-            if kind == 'plot' and st['data'] not in CPLX and st['NFFT'] % 2:
+            if kind == 'plot' and not _is_cplx(st['data']) and st['NFFT'] % 2:
                 # F08 seen through plot(): for real data and odd NFFT the private two-sided layout has NFFT-1 values,
                 # which plot() itself refuses to draw against the NFFT-entry axis
                 fx['layout'] = 'private-nyquist-last'
